@@ -75,19 +75,27 @@ MStepF(mm, ss, s, n) ==
            [] n.k = "N"           -> R([ss EXCEPT !.won = @ + 1], <<[k |-> "IC", v |-> ss.won, c |-> c], N(1000 + ss.won + 1, c)>>)
            \* an error or a completion of the source or of the boundary completes the current window, then ends the output (pinned)
            [] OTHER               -> R(ended1, <<[k |-> "IC", v |-> ss.won, c |-> c], n>>)
-    [] mm.op \in {"GroupBy", "GroupByLeave"} ->
+    [] mm.op \in {"GroupBy", "GroupByLeave", "GroupByCut"} ->
          \* single source, higher-order output flattened like WindowWhen: key = v % 2, group g = position of the key in ss.buf (creation order).
          \* A new group is handed to the observer with its first value already inside; both terminals reach the output first, then every
          \* group (IE(g) / IC(g)); the order among the groups is not fixed by the code (the replayer sorts it).
          \* "GroupByLeave": the observer unsubscribes from every group after the first value it received from it: later values of that key
          \* stay inside the group (nobody listens) - they never open a second group for the same key - and a group that was left gets no terminal.
          LET key == v % 2
+             \* the WithContext flavours: the key selector returns a context of its own (marker "cb"), which every item delivered to a group carries
+             gc == IF mm.g \in {"GroupByWithContext", "GroupByIWithContext"} THEN n.c \cup {"cb"} ELSE n.c
              left == mm.op = "GroupByLeave"
              has == \E g \in 1..Len(ss.buf) : ss.buf[g] = key
              gi == IF has THEN CHOOSE g \in 1..Len(ss.buf) : ss.buf[g] = key ELSE Len(ss.buf) + 1
              groups(kk) == IF left THEN <<>> ELSE [g \in 1..Len(ss.buf) |-> [k |-> kk, v |-> g, c |-> c]]
-         IN CASE n.k = "N" -> IF has THEN R(ss, IF left THEN <<>> ELSE <<[k |-> "I", v |-> 100 * gi + v, c |-> c]>>)
-                              ELSE R([ss EXCEPT !.buf = Append(@, key)], <<N(1000 + gi, c), [k |-> "I", v |-> 100 * gi + v, c |-> c]>>)
+             \* "GroupByCut": the observer unsubscribes from the OUTER stream inside the callback that hands it the second group (after it
+             \* subscribed that group): the value that opened the group is already inside and is delivered, then both groups are completed
+             cutNow == mm.op = "GroupByCut" /\ ~has /\ gi = 2
+         IN CASE n.k = "N" /\ cutNow ->
+                   R([ss EXCEPT !.buf = Append(@, key)], <<N(1002, gc), [k |-> "I", v |-> 200 + v, c |-> gc],
+                                                          [k |-> "IC", v |-> 1, c |-> SubCtx], [k |-> "IC", v |-> 2, c |-> SubCtx]>>)
+              [] n.k = "N" -> IF has THEN R(ss, IF left THEN <<>> ELSE <<[k |-> "I", v |-> 100 * gi + v, c |-> gc]>>)
+                              ELSE R([ss EXCEPT !.buf = Append(@, key)], <<N(1000 + gi, gc), [k |-> "I", v |-> 100 * gi + v, c |-> gc]>>)
               [] n.k = "E" -> R(ended1, <<n>> \o groups("IE"))
               [] OTHER     -> R(ended1, <<n>> \o groups("IC"))
     [] mm.op = "ThrottleWhen" ->
@@ -102,7 +110,7 @@ SubOutF(mm) == IF mm.op = "WindowWhen" THEN <<N(1001, SubCtx)>> ELSE <<>>
 SubStF(mm, ss) == IF mm.op = "WindowWhen" THEN [ss EXCEPT !.won = 1] ELSE ss
 
 \* what the observer still receives when the subscriber leaves: GroupBy completes the groups it handed out
-UnsubOutF(mm, ss) == IF mm.op = "GroupBy" /\ ~ss.done THEN [g \in 1..Len(ss.buf) |-> [k |-> "IC", v |-> g, c |-> SubCtx]] ELSE <<>>
+UnsubOutF(mm, ss) == IF mm.op \in {"GroupBy", "GroupByCut"} /\ ~ss.done THEN [g \in 1..Len(ss.buf) |-> [k |-> "IC", v |-> g, c |-> SubCtx]] ELSE <<>>
 
 HasTerminal(out) == \E j \in 1..Len(out) : out[j].k \in {"E", "C"}
 
@@ -111,7 +119,7 @@ ArriveF(mm, ss, cl, s, n) ==
   LET active == s \in ss.live /\ ~ss.done
       r == IF active THEN MStepF(mm, ss, s, n) ELSE R(IF n.k = "N" THEN ss ELSE [ss EXCEPT !.ended = @ \cup {s}], <<>>)
       d == IF cl THEN <<>> ELSE r.out
-      term == HasTerminal(d)
+      term == HasTerminal(d) \/ (mm.op = "GroupByCut" /\ \E j \in 1..Len(d) : d[j].k = "N" /\ d[j].v = 1002)      \* ... or the observer left
       \* an error or a completion of the output releases every other source at once (C05 / C14)
       s2 == IF term THEN [r.st EXCEPT !.done = TRUE, !.torn = @ \cup (r.st.live \ r.st.ended), !.live = {}]
                     ELSE [r.st EXCEPT !.live = @ \ r.st.ended]
